@@ -18,6 +18,9 @@ mod c07;
 mod c09;
 mod c10;
 mod seqx;
+mod seqrun;
+mod c05core;
+mod c05;
 mod c13;
 mod c14;
 mod c17;
